@@ -108,6 +108,9 @@ structure Tables where
   /-- probed: `to_function` refuses python-attribute names with NotImplementedError (live code, since ff787d9); `false` =
   the code before: the attribute was called like a SQL function and its str / int result leaked an AttributeError -/
   funcGuard : Bool := true
+  /-- probed: `to_function` refuses a name made of underscores only (`t.op.rstrip('_') == ''`, live code since 3ffafef):
+  sa.func strips a trailing underscore, so the function `_` would get the empty name; `false` = the code before -/
+  funcEmptyGuard : Bool := true
 
 /-- the probed class name of `RenderError` ("exception" | "sa" | "notImpl") -/
 def excOfProbe (s : String) : Exc :=
@@ -145,7 +148,7 @@ def funcClass (tb : Tables) (name : String) : FuncClass :=
 /-- the name check at the top of `to_function` (before any argument is evaluated) -/
 def funcNameRaise (tb : Tables) (name : String) : Option Exc :=
   match funcClass tb name with
-  | .gen => none
+  | .gen => if tb.funcEmptyGuard && name.toList.all (· == '_') then some .notImpl else none
   | .missing => some .notImpl
   | .pyattr => if tb.funcGuard then some .notImpl else none
 
